@@ -5,7 +5,8 @@ fn write_imports(
     ) -> std::io::Result<()> {
         for (path, ty) in imports {
             for t in ty {
-                writeln!(w, "import {}.{path}.{t}", self.package)?;
+                // The other module defines the type under its prefixed name.
+                writeln!(w, "import {}.{path}.{}{t}", self.package, self.prefix)?;
             }
         }
         writeln!(w)
